@@ -207,7 +207,12 @@ class spec_class:
             "__delattr__": True,
             "__deepcopy__": True,
         }
-        self.do_not_copy = do_not_copy
+        self.do_not_copy = (
+            do_not_copy
+            if do_not_copy is MISSING or isinstance(do_not_copy, bool)
+            # (consulted once per attribute: a one-shot iterable must not run dry)
+            else frozenset(do_not_copy)
+        )
         self.frozen = frozen
         self.init_overflow_attr = init_overflow_attr
         self.bootstrap_immediately = bootstrap
